@@ -352,6 +352,9 @@ func (e *Env) cutLoop(fr *Frame, order []*ssa.BasicBlock, loops map[*ssa.BasicBl
 		t := e.evalInv(fr, c, in)
 		e.oblige("inv-init", "loop"+li.key+lbl(c.Label), in.pc, t)
 	}
+	if a := e.autoRangeInv(fr, li, in); a != tTrue {
+		e.oblige("inv-init", "loop"+li.key+":auto-rangeindex", in.pc, a)
+	}
 	// discovery run: which heap arrays does the body write?
 	saveRegs := map[ssa.Value]Value{}
 	for k, v := range fr.regs {
@@ -363,7 +366,19 @@ func (e *Env) cutLoop(fr *Frame, order []*ssa.BasicBlock, loops map[*ssa.BasicBl
 	saveDefers := fr.defers
 	e.dry++
 	rr := &regionRun{li: li}
+	saveW, saveA := e.writeLog, e.allocLog
+	e.writeLog, e.allocLog = map[string][]string{}, map[string]bool{}
 	e.runBlocks(fr, order, loops, li.header, in, rr)
+	wlog, alog := e.writeLog, e.allocLog
+	e.writeLog, e.allocLog = saveW, saveA
+	if saveW != nil {
+		for n, rs := range wlog {
+			saveW[n] = append(saveW[n], rs...)
+		}
+		for r := range alog {
+			saveA[r] = true
+		}
+	}
 	e.dry--
 	fr.rets = saveRets
 	fr.defers = saveDefers
@@ -371,7 +386,7 @@ func (e *Env) cutLoop(fr *Frame, order []*ssa.BasicBlock, loops map[*ssa.BasicBl
 	modified := map[string]bool{}
 	for _, bs := range rr.backStates {
 		for n, t := range bs.heap {
-			if in.heap[n] != t {
+			if e.heapGet(in, n, e.heapSorts[n]) != t {
 				modified[n] = true
 			}
 		}
@@ -379,8 +394,21 @@ func (e *Env) cutLoop(fr *Frame, order []*ssa.BasicBlock, loops map[*ssa.BasicBl
 	fr.regs = saveRegs
 	// havoc
 	hv := in.clone()
+	calleeMods := len(wlog["*callee-modifies*"]) > 0
 	for _, n := range sortedKeys(modified) {
+		old := e.heapGet(in, n, e.heapSorts[n])
 		hv.heap[n] = e.fresh("hv!"+n, e.heapSorts[n])
+		// if the loop body only writes objects it allocated itself, everything allocated
+		// before the loop is unchanged
+		freshOnly := !calleeMods && len(wlog[n]) > 0
+		for _, r := range wlog[n] {
+			if !alog[r] {
+				freshOnly = false
+			}
+		}
+		if freshOnly {
+			e.assume(fmt.Sprintf("(forall ((|$r| Int)) (! (=> (< |$r| %s) (= (select %s |$r|) (select %s |$r|))) :pattern ((select %s |$r|))))", in.next, hv.heap[n], old, hv.heap[n]))
+		}
 	}
 	nx := e.fresh("next", sInt)
 	e.assume(sx("<=", in.next, nx))
@@ -400,6 +428,7 @@ func (e *Env) cutLoop(fr *Frame, order []*ssa.BasicBlock, loops map[*ssa.BasicBl
 		t := e.evalInv(fr, c, hv)
 		e.assume(mkImp(hv.pc, t))
 	}
+	e.assume(mkImp(hv.pc, e.autoRangeInv(fr, li, hv)))
 	e.useAt(fr, "loop "+li.key+" head", hv)
 	return hv
 }
@@ -513,6 +542,9 @@ func (e *Env) loopBack(fr *Frame, li *loopInfo, from *ssa.BasicBlock, s *State) 
 	for _, c := range e.loopInvariants(fr, li.key) {
 		t := e.evalInv(fr, c, s)
 		e.oblige("inv-step", "loop"+li.key+lbl(c.Label), s.pc, t)
+	}
+	if a := e.autoRangeInv(fr, li, s); a != tTrue {
+		e.oblige("inv-step", "loop"+li.key+":auto-rangeindex", s.pc, a)
 	}
 	if e.dry == 0 {
 		e.cover("loop"+li.key+"-back", s.pc)
@@ -987,9 +1019,9 @@ func (e *Env) lookup(fr *Frame, x *ssa.Lookup, st *State) Value {
 func (e *Env) makeSlice(fr *Frame, x *ssa.MakeSlice, st *State) Value {
 	ln := e.get(fr, x.Len, st).(*Sc).T
 	cp := e.get(fr, x.Cap, st).(*Sc).T
-	e.panicCheck(fr, "makeslice", st, mkAnd(sx("<=", "0", ln), sx("<=", ln, cp), sx("<=", cp, "281474976710656")))
-	r := e.alloc(st)
 	et := x.Type().Underlying().(*types.Slice).Elem()
+	e.panicCheck(fr, "makeslice", st, mkAnd(sx("<=", "0", ln), sx("<=", ln, cp), sx("<=", cp, maxElems(et))))
+	r := e.alloc(st)
 	e.initBacking(st, r, et)
 	return &Slice{Arr: r, Off: "0", Len: ln, Cap: cp, Typ: x.Type()}
 }
@@ -1084,7 +1116,18 @@ func (e *Env) typeAssert(fr *Frame, x *ssa.TypeAssert, st *State) Value {
 			ts = append(ts, sx(u, iv.T))
 		}
 		raw := e.fromLeaves(x.AssertedType, ts)
-		// type-range / shape facts for the unboxed payload
+		// type-range / shape facts for the unboxed payload (it was boxed from a well-formed value)
+		for i, l := range e.leavesOf(x.AssertedType) {
+			if l.Sort == sInt {
+				if isRefType(l.Typ) || strings.HasSuffix(l.Path, "#arr") {
+					e.assume(mkImp(ok, mkAnd(sx("<=", "0", ts[i]), sx("<", ts[i], st.next))))
+				} else if r := e.typeRange(ts[i], l.Typ); r != tTrue {
+					e.assume(mkImp(ok, r))
+				}
+			}
+		}
+		e.assumeShapeIf(ok, raw)
+		e.payloadAtEntry(iv.T, x.AssertedType, ts)
 		val = raw
 	}
 	ok = e.maybeName(ok, sBool)
@@ -1148,4 +1191,76 @@ func subOne(dec string) string {
 		b[i]--
 	}
 	return strings.TrimLeft(string(b), "0")
+}
+
+// autoRangeInv is the invariant the engine adds for the hidden index of a
+// range-over-slice/int loop: -1 <= rangeindex < bound, where bound is the loop-invariant
+// value the index is compared with in the header. It is checked like any other
+// invariant (inv-init / inv-step obligations).
+func (e *Env) autoRangeInv(fr *Frame, li *loopInfo, st *State) string {
+	var out []string
+	for _, ins := range li.header.Instrs {
+		phi, ok := ins.(*ssa.Phi)
+		if !ok {
+			break
+		}
+		if phi.Comment != "rangeindex" {
+			continue
+		}
+		v, ok := fr.regs[phi].(*Sc)
+		if !ok || v.Sort != sInt {
+			continue
+		}
+		out = append(out, sx("<=", "(- 1)", v.T))
+		// find  t = phi + 1 ; c = t < bound  in the header
+		for _, in2 := range li.header.Instrs {
+			b, ok := in2.(*ssa.BinOp)
+			if !ok || b.Op != token.LSS {
+				continue
+			}
+			add, ok := b.X.(*ssa.BinOp)
+			if !ok || add.Op != token.ADD || add.X != ssa.Value(phi) {
+				continue
+			}
+			// the bound must be defined outside the loop
+			if bi, ok := b.Y.(ssa.Instruction); ok && li.body[bi.Block()] {
+				continue
+			}
+			bv, ok := e.get(fr, b.Y, st).(*Sc)
+			if ok && bv.Sort == sInt {
+				out = append(out, mkOr(sx("<", v.T, bv.T), sx("<", bv.T, "0")))
+			}
+		}
+	}
+	return mkAnd(out...)
+}
+
+func (e *Env) assumeShapeIf(cond string, v Value) {
+	switch x := v.(type) {
+	case *Struct:
+		for _, f := range x.F {
+			e.assumeShapeIf(cond, f)
+		}
+	case *Slice:
+		e.assume(mkImp(cond, e.sliceWF(x)))
+	}
+}
+
+// payloadAtEntry: the payload of an interface value that existed at function entry only
+// refers to objects (and interface values) that existed at entry.
+func (e *Env) payloadAtEntry(iface string, t types.Type, leaves []string) {
+	if e.next0 == "" || e.quantDepth > 0 {
+		return
+	}
+	e.declAtEntry()
+	for i, l := range e.leavesOf(t) {
+		if l.Sort != sInt {
+			continue
+		}
+		if isRefType(l.Typ) || strings.HasSuffix(l.Path, "#arr") {
+			e.assume(mkImp(sx("atentry", iface), sx("<", leaves[i], e.next0)))
+		} else if isIfaceType(l.Typ) {
+			e.assume(mkImp(sx("atentry", iface), sx("atentry", leaves[i])))
+		}
+	}
 }
